@@ -57,6 +57,7 @@ impl Prop for C05 {
         ]
     }
     fn run(&self, ctx: &Ctx) {
+        ctx.journal_bytes.set(true);
         let cases = ctx.tier.pick(1_200u32, 20_000u32);
         ctx.run_bytes("session", cases, 1536, case);
     }
